@@ -21,8 +21,21 @@ mod c06;
 mod c17;
 mod c18;
 mod c19;
+mod c15;
 
 use util::Ctx;
+
+/// largest single allocation request since it was last reset (C15)
+pub static ALLOC_MAX: std::sync::atomic::AtomicUsize = std::sync::atomic::AtomicUsize::new(0);
+struct Tracking;
+unsafe impl std::alloc::GlobalAlloc for Tracking {
+    unsafe fn alloc(&self, l: std::alloc::Layout) -> *mut u8 { ALLOC_MAX.fetch_max(l.size(), std::sync::atomic::Ordering::Relaxed); std::alloc::System.alloc(l) }
+    unsafe fn dealloc(&self, p: *mut u8, l: std::alloc::Layout) { std::alloc::System.dealloc(p, l) }
+    unsafe fn realloc(&self, p: *mut u8, l: std::alloc::Layout, n: usize) -> *mut u8 { ALLOC_MAX.fetch_max(n, std::sync::atomic::Ordering::Relaxed); std::alloc::System.realloc(p, l, n) }
+    unsafe fn alloc_zeroed(&self, l: std::alloc::Layout) -> *mut u8 { ALLOC_MAX.fetch_max(l.size(), std::sync::atomic::Ordering::Relaxed); std::alloc::System.alloc_zeroed(l) }
+}
+#[global_allocator]
+static GLOBAL: Tracking = Tracking;
 
 fn main() {
     let args: Vec<String> = std::env::args().collect();
@@ -63,6 +76,8 @@ fn main() {
         ("gen", "C17") => c17::gen(&mut ctx),
         ("gen", "C18") => c18::gen(&mut ctx, seed),
         ("gen", "C19") => c19::gen(&mut ctx),
+        ("gen", "C15") => c15::gen(&mut ctx),
+        ("c15worker", name) => { c15::worker(name); return; }
         ("c18case", idx) => { let i: usize = idx.parse().unwrap_or(0); c18::run_one(&mut ctx, i); }
         _ => { eprintln!("unknown command"); std::process::exit(2); }
     }
